@@ -432,6 +432,7 @@ def oracle(case: dict, snaps: List[dict], stats: List[str]) -> Optional[Tuple[di
     ops = number_commands(case["ops"])
     ever: List[set] = [set() for _ in snaps[0]["nodes"]]   # remote session ids ever seen live per node
     dead: List[set] = [set() for _ in snaps[0]["nodes"]]
+    orphans: List[Tuple[int, str]] = []                    # (target, session id) of logins whose reply was dropped
     for i, (op, st) in enumerate(zip(ops, stats)):
         if st.startswith("raised"):
             return ({"kind": "raised", "op": op["op"], "exc": st.split(":")[1]}, f"{op_line(op)} raised {st}", i)
@@ -529,6 +530,13 @@ def oracle(case: dict, snaps: List[dict], stats: List[str]) -> Optional[Tuple[di
                     return ({"kind": "login-answer-wrong", "op": k, "answer": st},
                             f"op {i} {op_line(op)} answered {st} although the target opened a session and the reply path was open", i)
                 ctr_half_open(case)
+                orphans += [(y, r[0]) for r in after["nodes"][y]["rem"] if r[0] not in {q[0] for q in before["nodes"][y]["rem"]}]
+        # a session whose client never learnt of it: no node but the target ever holds a connection with its id
+        for (oy, oid) in orphans:
+            for j, a in enumerate(after["nodes"]):
+                if j != oy and any(cid == oid for cid, _ in a["conns"]):
+                    return ({"kind": "orphan-session-got-a-client", "op": k}, f"op {i} {op_line(op)}: node {j} holds a connection "
+                            f"with the id of a session of node {oy} whose login was answered failure", i)
         if k == "chpw" and st == "success":
             a = after["nodes"][op["y"]]
             if any(r[1] == op["u"] for r in a["rem"]) or (a["loc"] is not None and a["loc"][1] == op["u"]):
